@@ -63,7 +63,15 @@ def _lr(form, phi):
     return L, L
 
 
-KFORMS = (("flat", 1), ("flat", 2), ("flat", 3), ("col", 2), ("row", 3), ("pairs", 1), ("pairs", 2), ("pairs", 3))
+KFORMS_QUICK = (("flat", 1), ("flat", 2), ("flat", 3), ("col", 2), ("row", 3), ("pairs", 1), ("pairs", 2), ("pairs", 3))
+KFORMS_THOROUGH = KFORMS_QUICK + (("flat", 4), ("flat", 5), ("col", 4), ("row", 5), ("pairs", 4), ("pairs", 5))
+KFORMS = KFORMS_QUICK
+
+
+def set_tier(tier):
+    """the thorough tier enumerates Kraus families of up to 5 operators"""
+    global KFORMS
+    KFORMS = KFORMS_THOROUGH if tier == "thorough" else KFORMS_QUICK
 
 
 # ---------------------------------------------------------------------------------------------
